@@ -272,6 +272,9 @@ class Prop:
     props_files = []          # e.g. ['Props/C06.v']
     translators = []          # names under translators/
     header = ''               # Coq imports for case files
+
+    def header_for(self, case):
+        return self.header
     clauses = []              # names of the oracle bits after the leading 'corr' bit
     level = 'proof'
     trusted = []              # extra trusted-base strings
@@ -403,9 +406,14 @@ def evaluate(prop, cases, scratch):
         results.append(dict(case=c, obs=r['obs'], bits=None, err=None))
         rows.append(prop.coq_row(c, r['obs']))
         idx.append(i)
-    bits = coq_eval_rows(scratch, prop.header, rows)
-    for i, b in zip(idx, bits):
-        results[i]['bits'] = b
+    # a property may evaluate different kinds of cases under different imports
+    groups = {}
+    for k, i in enumerate(idx):
+        groups.setdefault(prop.header_for(cases[i]), []).append(k)
+    for gi, (hdr, ks) in enumerate(groups.items()):
+        bits = coq_eval_rows(scratch, hdr, [rows[k] for k in ks], tag='cases%d' % gi if gi else 'cases')
+        for k, b in zip(ks, bits):
+            results[idx[k]]['bits'] = b
     return results
 
 
@@ -467,7 +475,7 @@ def run_check(prop, tier='quick', seed=0, replay=None):
                                   bits=dict(zip(['corr'] + prop.clauses, r['bits'] or []))), indent=1, default=str))
             ms = prop.model_show(case)
             if ms:
-                print('model:', coq_eval_text(scratch, prop.header, ms))
+                print('model:', coq_eval_text(scratch, prop.header_for(case), ms))
             return 0
 
         # 1. regenerate
@@ -552,7 +560,7 @@ def run_check(prop, tier='quick', seed=0, replay=None):
                     clause=cl, signature=sig, case=small, described=prop.describe(small),
                     impl_observation=rs['obs'], impl_error=rs['err'],
                     bits=dict(zip(['corr'] + prop.clauses, rs['bits'] or [])),
-                    model=coq_eval_text(scratch, prop.header, ms) if ms else None,
+                    model=coq_eval_text(scratch, prop.header_for(small), ms) if ms else None,
                     what='oracle clause %s is false on the implementation trace' % cl))
                 violations.append('VIOLATION property=%s replay=%s' % (prop.id, path))
             if not fc and r['bits'] is not None and not r['bits'][0]:
@@ -578,7 +586,7 @@ def run_check(prop, tier='quick', seed=0, replay=None):
                 what='correspondence %s no longer checks (%d of %d cases): %s' % (
                     getattr(prop, 'corr_name', prop.id + ' model vs implementation'), len(corr_bad), n_eval, why),
                 case=r['case'], impl_observation=r['obs'], impl_error=r['err'], tb=r.get('tb'),
-                model=coq_eval_text(scratch, prop.header, ms) if ms else None, theorem=None))
+                model=coq_eval_text(scratch, prop.header_for(r['case']), ms) if ms else None, theorem=None))
 
         # 5. a broken obligation / correspondence without a failing input
         if broken and not violations:
